@@ -91,14 +91,17 @@ CLAIMED = {
         technique='Coq round-trip / codec theorems on a writer+reader model + correspondence campaign evaluated in Coq'),
     'C10': dict(
         category='proof',
-        text='C10_total (every byte string and every decoder behaviour ends in an image or the read error), C10_consistent '
+        text='C10_total (every byte string and every decoder behaviour ends in an image or the read error), C10_bounded / '
+             'C10_segment_count_checked (entries <= segment_num x (pool + 999), ranges <= segment_num, independent of the start/'
+             'length values in the table; a claimed segment count the file cannot hold is rejected after <= |file|/32 + 1 reads), '
+             'C10_consistent '
              '(an accepted file has a consistent table), C10_torn (every strict prefix of every writer-produced file is '
              'rejected or loads the same Reader state), on the model of Reader.__init__; campaign over every prefix, every '
              'single-field corruption, payload damage and random strings, through Reader and fjm_run.run.',
         design_ref='DESIGN.md section 4, C10',
         note='Premise of C10_torn: a strict prefix of a raw LZMA2 stream does not decode (checked on every v3 prefix each run). '
-             'The allocation bound is not proved (shared data ranges make memory |table| x |pool|; decompression bombs '
-             'excluded). fjm_run.run classification and hang-freedom are campaign-only. F6, F19 fixed.',
+             'The allocation bound is a product (v0/v1 segments may share data ranges) and excludes v3 decompression bombs '
+             '(the pool is the decompressed size). fjm_run.run classification and hang-freedom are campaign-only. F6, F19 fixed.',
         technique='Coq totality / torn-prefix / consistency theorems on the reader model + corruption campaign evaluated in Coq'),
     'C12': dict(
         category='proof',
